@@ -226,11 +226,17 @@ AdmMenu(info, fuel, cu) ==
     THEN {Beh(FALSE, <<>>, <<>>, <<>>, NoData, <<Sub(m, 1, "", on)>>) :
              m \in {Migrate(A, 2), UpdateAdmin(A, B), Migrate(B, 1), UpdateAdmin(B, "u1"), ClearAdmin(A), Migrate(info.c, 2)},
              on \in {"never", "error"}} \cup {B0}
+    ELSE IF info.entry = "migrate" /\ fuel > 1
+    THEN (* the migrate entry point itself re-assigns the admin / migrates again *)
+         {W(info), BFail}
+         \cup {Beh(FALSE, WriteTok(info), <<>>, <<>>, NoData, <<Sub(m, 2, "", "never")>>) :
+                  m \in {ClearAdmin(info.c), UpdateAdmin(info.c, "u2"), Migrate(info.c, 1)}}
     ELSE {W(info), BFail}
 AdmCalls(rt, cd, n) ==
     { ExecuteCall(u, <<m>>) : u \in {"u1", "u2", "u3"},
           m \in {Migrate(A, 2), Migrate(A, 1), Migrate(A, 7), Migrate(B, 1), Migrate(C, 2),
-                 UpdateAdmin(A, "u2"), UpdateAdmin(A, B), UpdateAdmin(C, "u3"), ClearAdmin(A), ClearAdmin(B), ClearAdmin(C)} }
+                 UpdateAdmin(A, "u2"), UpdateAdmin(A, B), UpdateAdmin(A, A), UpdateAdmin(A, "u1"), UpdateAdmin(C, "u3"),
+                 ClearAdmin(A), ClearAdmin(B), ClearAdmin(C)} }
     \cup { ExecuteCall("u1", << Exec(c, <<>>) >>) : c \in {A, B} }
 
 (* ====================================================================== *)
